@@ -13,6 +13,7 @@ type batchReq struct {
 	Base      map[string]any   `json:"base"`
 	Histories [][]string       `json:"histories"`
 	Variants  []map[string]any `json:"variants,omitempty"` // optional per-history parameter overrides (same length as Histories)
+	Family    string           `json:"family,omitempty"`   // scenario family ("seq" if empty)
 	Group     int              `json:"group,omitempty"`    // >1: every run of this many consecutive entries must deliver identical event sequences
 }
 
@@ -40,7 +41,11 @@ func runBatch(j Job) JobResult {
 				p[k] = v
 			}
 		}
-		sc := seqScenario(p)
+		mk := seqScenario
+		if req.Family != "" && req.Family != "seq" {
+			mk = Families[req.Family]
+		}
+		sc := mk(p)
 		r := RunOnce(sc, nil, false, nil)
 		if r.EngineErr != "" {
 			res.EngineErr = r.EngineErr + " (" + sc.Name + ")"
@@ -60,8 +65,7 @@ func runBatch(j Job) JobResult {
 		}
 		if len(r.Violations) > 0 {
 			for k := 0; k < 2; k++ {
-				r2 := RunOnce(sc, nil, false, nil)
-				if len(r2.Violations) != len(r.Violations) {
+				if !sameProps(r.Violations, RunOnce(sc, nil, false, nil).Violations) {
 					res.EngineErr = "violation did not reproduce for " + sc.Name
 					return res
 				}
@@ -550,4 +554,26 @@ func init() {
 		Rule:      "E2 differential: every history of one or two operations (thorough: three) over ten operations, as a burst and step by step, is run with Events capacity -1(default),0,1,2,4,...,65536 with an eager consumer and with capacity 0,1,8,64,65536 with the consumer attached only after the history; all runs of one history must deliver byte-identical sequences (and each must match the reference model); a Watcher whose capacity covers the history must absorb it with no consumer; cap(Events) must equal the request; then histories with one or two other Watchers being created, adding/removing the same paths and being closed at every position (synchronous close, so descriptor numbers are really reused)",
 		Technique: "exhaustive differential enumeration over configurations (buffer sizes, co-existing Watchers) on the real code",
 		Assume:    []string{"other Watchers run in the same process and share the scheduler"}}
+}
+
+// sameProps: a re-run reproduces a violation if it violates the same
+// properties (details may differ where the code under test iterates over a Go
+// map, whose order is random by design and compared as a set everywhere).
+func sameProps(a, b []Violation) bool {
+	pa, pb := map[string]bool{}, map[string]bool{}
+	for _, v := range a {
+		pa[v.Property] = true
+	}
+	for _, v := range b {
+		pb[v.Property] = true
+	}
+	if len(pa) != len(pb) {
+		return false
+	}
+	for k := range pa {
+		if !pb[k] {
+			return false
+		}
+	}
+	return true
 }
